@@ -17,13 +17,13 @@ def story_xml(sid, items=(), paras=True, dur=True, tag='story', extra=''):
     return '<%s><storyID>%s</storyID><storySlug>slug %s</storySlug>%s%s%s</%s>' % (tag, sid, sid, body, md, extra, tag)
 
 
-def ro_xml(stories, meta_layout='before', items=None, mid=1, roid='RO1', dur=True):
+def ro_xml(stories, meta_layout='before', items=None, mid=1, roid='RO1', dur=True, nodur=()):
     """stories: list of ids; items: dict id -> list of item ids; meta_layout: where non-story metadata sits"""
     items = items or {}
     head = '<roID>%s</roID><roSlug>the slug</roSlug><roEdStart>2020-01-01T10:00:00</roEdStart>' % roid
     parts = []
     for k, s in enumerate(stories):
-        parts.append(story_xml(s, items.get(s, ()), dur=dur))
+        parts.append(story_xml(s, items.get(s, ()), dur=dur and s not in nodur))
         if meta_layout in ('between', 'all') and k == 0:
             parts.append('<roTrigger>between</roTrigger>')
     tail = '<mosExternalMetadata><mosSchema>http://x/ro</mosSchema><mosPayload><a>1</a></mosPayload></mosExternalMetadata>' \
@@ -98,6 +98,8 @@ def msg(kind, mid=5, roid='RO1', **a):
         elif kind == 'EAItemMove':
             tgt = '<element_target>%s%s</element_target>' % (_sid(a['story']), _iid(a['target']))
             src = ''.join(_iid(i) for i in a['ids'])
+        if a.get('no_target_elem'):
+            tgt = ''
         return ENV % (mid, '<roElementAction operation="%s">%s%s<element_source>%s</element_source></roElementAction>' % (op, R, tgt, src)), q % kind
     if kind == 'ReadyToAir':
         return ENV % (mid, '<roReadyToAir>%s<roAir>READY</roAir></roReadyToAir>' % R), q % kind
@@ -186,11 +188,31 @@ def merge_cases(tier, rng):
                         yield dict(kind='EAItemDelete', args=dict(story=st, ids=list(ids)), ro=ro, level='item')
                 for a, b in itertools.product(refs(I), repeat=2):
                     yield dict(kind='EAItemSwap', args=dict(story=st, ids=[a, b]), ro=ro, level='item')
+        # roElementAction without any element_target tag; running orders holding a story without timing metadata
+        ro = dict(stories=S, meta_layout='before', items={S[0]: ['1', '2']})
+        for kind, args in (('EAStoryInsert', dict(target=None, new=['N1'])), ('EAStoryDelete', dict(ids=[S[0]])),
+                           ('EAStorySwap', dict(ids=[S[0], S[-1]])), ('EAStoryMove', dict(target=ABSENT, ids=[S[0]])),
+                           ('EAItemSwap', dict(story=S[0], ids=['1', '2'])), ('EAItemDelete', dict(story=S[0], ids=['1']))):
+            a2 = dict(args)
+            a2['no_target_elem'] = True
+            if kind in ('EAItemSwap', 'EAItemDelete'):
+                a2['story'] = None      # without element_target there is no story reference
+            yield dict(kind=kind, args=a2, ro=ro, level='item' if 'Item' in kind else 'story')
+        for nd in ([S[0]], [S[len(S) // 2]], list(S)):
+            ro = dict(stories=S, meta_layout='before', items={S[0]: ['1']}, nodur=nd)
+            yield dict(kind='StoryInsert', args=dict(target=S[-1], new=['N1']), ro=ro, level='story')
+            yield dict(kind='EAStoryInsert', args=dict(target=None, new=['N1']), ro=ro, level='story')
+            yield dict(kind='StorySend', args=dict(target=S[0]), ro=ro, level='story')
+            yield dict(kind='StoryAppend', args=dict(new=['N1']), ro=ro, level='story')
         ro = dict(stories=S, meta_layout='all', items={S[0]: ['1', '2']})
         yield dict(kind='ReadyToAir', args={}, ro=ro, level='ro')
         yield dict(kind='RunningOrderEnd', args={}, ro=ro, level='ro')
         yield dict(kind='RunningOrderReplace', args=dict(new=['X1', 'X2']), ro=ro, level='ro')
-        for body in ('<roSlug>new slug</roSlug>', '<roSlug>s2</roSlug><roChannel>ch</roChannel>',
+        for body in ('<mosExternalMetadata><mosPayload><c>no schema</c></mosPayload></mosExternalMetadata>',
+                     '<mosExternalMetadata><mosSchema/><mosPayload><c>blank schema</c></mosPayload></mosExternalMetadata>',
+                     '<mosExternalMetadata><mosPayload><c>1</c></mosPayload></mosExternalMetadata><mosExternalMetadata><mosPayload><c>2</c></mosPayload></mosExternalMetadata>',
+                     '<roEdStart>2021-02-03T04:05:06</roEdStart><roTrigger>t2</roTrigger>',
+                     '<roSlug>new slug</roSlug>', '<roSlug>s2</roSlug><roChannel>ch</roChannel>',
                      '<mosExternalMetadata><mosSchema>http://x/ro</mosSchema><mosPayload><a>2</a></mosPayload></mosExternalMetadata>',
                      '<mosExternalMetadata><mosSchema>http://other</mosSchema><mosPayload><b>9</b></mosPayload></mosExternalMetadata>'):
             yield dict(kind='MetaDataReplace', args=dict(body=body), ro=ro, level='meta')
